@@ -1558,6 +1558,8 @@ _U = 'utils/courier_utils.py'
 _W = 'chainables/courier_worker.py'
 _O = 'chainables/orchestrate.py'
 VARIANTS = [
+    OK('refresh-newest-through-a-local', 'utils/courier_utils.py',
+       "        self.data[address] = max(last_time, time_)", "        newest = max(last_time, time_)\n        self.data[address] = newest"),
     OK('call-and-wait-releases-in-a-base-exception-handler', 'chainables/courier_worker.py',
        "    except Exception as e:  # pylint: disable=broad-exception-caught\n      raise e\n    finally:\n      self.release_all()\n    return result",
        "    except BaseException:  # pylint: disable=broad-exception-caught\n      self.release_all()\n      raise\n    self.release_all()\n    return result"),
